@@ -253,6 +253,16 @@ def main(tier, seed):
         if rnd_runs:
             h, steps = rnd_runs[0]
             chk.sample({"history": h[:10], "observed": steps[:10]})
+    # the property itself, model-free, on every observed history (two-variable model: BASE, current additions)
+    orc_bad = []
+    for h, steps in runs_all:
+        r = oracle(h, steps, base)
+        if r:
+            orc_bad.append({"history": h, "oracle": r[0], "step": r[1]})
+    if runs_all:
+        chk.oblige(f"property oracle (model-free) holds on all {len(runs_all)} observed histories", not orc_bad,
+                   json.dumps(orc_bad[:3])[:1500])
+        bad += orc_bad
     chk.extra["bounds"] = {"exhaustive_max_length": maxlen, "random_max_length": 30,
                            "addition_sets": ADDS, "vocabulary": [".".join(g) for g in VOCAB]}
 
